@@ -5,6 +5,8 @@ import Flowjaxv.Driver.Misc
 import Flowjaxv.Driver.ArrTree
 import Flowjaxv.Driver.JaxTr
 import Flowjaxv.Driver.AdDrv
+import Flowjaxv.Driver.AdSplineDrv
+import Flowjaxv.Driver.AdMvnDrv
 import Flowjaxv.Driver.PyTree
 import Flowjaxv.Driver.Masks
 import Flowjaxv.Driver.Wrappers
@@ -58,6 +60,8 @@ def dispatch (line : String) : String :=
       | "adplanar" => adplanar args
       | "admix" => admix args
       | "adnet" => adnet args
+      | "adspline" => adspline args
+      | "admvn" => admvn args
       | "pytree" => pytree args
       | "gwrap" => gwrap args
       | "jmod" => jmodOp args
